@@ -110,6 +110,20 @@ func execOp(line string) string {
 		return measured(len(b), func() string { return execDec(kind, b) })
 	case "enc":
 		return guarded(func() string { return execEnc(kind, NewR(args)) })
+	case "enccap":
+		// Marshal of a value whose slices have spare capacity behind their length (as append and decoders leave them):
+		// the encoding depends on lengths only
+		return guarded(func() string {
+			p := getBody(NewR(args), kind)
+			if kind != "RAW" {
+				plantCanaries(p)
+			}
+			b, err := p.Marshal()
+			if err != nil {
+				return "err"
+			}
+			return okHex(b)
+		})
 	case "size":
 		return guarded(func() string {
 			p := getBody(NewR(args), kind)
